@@ -99,6 +99,24 @@ contract(f"{RC}::RequestCache._on_timeout", "_on_timeout", vars=VARS,
                     "future.set_result": ["not isinstance(TOV, Exception)", "args[0] is TOV or args[0] == TOV"]},
          note="the identity is released before on_timeout runs, on_timeout runs exactly once, tied futures are completed")
 
+# ... and what the callback itself registers under the now free identity (a retry) stays registered: _on_timeout does not touch the
+# table again after the callback
+def callback_may_retry(self, c):
+    if nondet_bool():
+        self._identifiers[cid(c)] = c
+        self.P.add(cid(c))
+        c.retried = True
+    return True
+
+
+contract(f"{RC}::RequestCache._on_timeout", "_on_timeout.a-retry-registered-by-the-callback-stays",
+         vars={**VARS, "c": OBJ(f"{RC}::NumberCache", _prefix=STR, _number=INT, _managed_futures=EXPR("[(F1, TOV)]"), _logger=LOGGER(),
+                                on_timeout=CALLABLE("on_timeout", raises=()), retried=EXPR("False"))},
+         requires=[R], call="self._on_timeout(c)", raises=[], stubs=STUBS,
+         on_effect={"on_timeout": ["cid(c) not in self._identifiers", "callback_may_retry(self, c)"]},
+         ensures=["not c.retried or (cid(c) in self._identifiers and self._identifiers[cid(c)] is c)"],
+         note="a request re-issued from inside on_timeout under the same (prefix, number) is outstanding afterwards")
+
 contract(f"{RC}::RequestCache._on_timeout", "_on_timeout.completes-futures", vars=VARS,
          requires=[R], call="self._on_timeout(c)", raises=[], stubs=STUBS,
          ensures=["len(calls('future.done')) == 1"],
